@@ -225,6 +225,7 @@ type stepInfo struct {
 	line          string
 	actor         string
 	before, after *State
+	raw           string // the implementation's whole answer line
 }
 
 func steps(c fw.Case, outs []string) []stepInfo {
@@ -244,7 +245,7 @@ func steps(c fw.Case, outs []string) []stepInfo {
 		}
 		if strings.HasPrefix(ln, "v2.run ") && prev != nil {
 			f := strings.Fields(ln)
-			res = append(res, stepInfo{line: ln, actor: f[1], before: prev, after: sts[i]})
+			res = append(res, stepInfo{line: ln, actor: f[1], before: prev, after: sts[i], raw: outs[i]})
 		}
 		prev = sts[i]
 	}
@@ -530,7 +531,7 @@ func monitorC11(c fw.Case, outs []string) []string {
 		}
 		attempted := true
 		att := 0
-		if m := attRe.FindString(outsHead(st.after)); m != "" {
+		if m := attOnlyRe.FindString(outsHead(st.after)); m != "" {
 			att = atoi(strings.TrimPrefix(m, " att="))
 		}
 		switch {
